@@ -100,4 +100,16 @@ def run(ctx):
                       '%s -> %s' % (scen, table.get(scen)),
                       'at kT = +0 a %s proposal is %s (required: %s)' % (scen, table.get(scen), want))
         rep.sample('decision table at kT=+0: %s' % table)
-    rep.note('R4 (returned state is the moved-in state; score_current only takes accepted scores) is decided by C06.R4/R5')
+    # R4: the hill-climb argument needs exact undo and bookkeeping (C06 obligations, imported)
+    from ..harness import Report
+    from .C06 import run as run_c06
+    sub = type('Ctx', (), {})()
+    sub.__dict__.update(ctx.__dict__)
+    sub.rep = Report('C06', ctx.tier)
+    run_c06(sub)
+    for o in sub.rep.obligations:
+        if o['ok']:
+            rep.ok('R4', 'C06:' + o['rule'] + '/' + o['instance'], o['construct'], o['why'])
+        else:
+            rep.fail('R4', 'C06:' + o['rule'] + '/' + o['instance'], o['construct'], o['why'], o['reason'])
+    rep.analysed |= sub.rep.analysed
